@@ -5,7 +5,7 @@ import z3
 from sx import core as S, env as E, npshim, mat
 
 PROPERTY = "C12"
-REGIONS = ["bound-tightened", "crossed-bounds", "coef-magnitude>1-positive", "coef-magnitude>1-negative", "zero-coef", "symbolic-box", "negative-lower-bound"]
+REGIONS = ["queries-after-tighten", "bound-tightened", "crossed-bounds", "coef-magnitude>1-positive", "coef-magnitude>1-negative", "zero-coef", "symbolic-box", "negative-lower-bound"]
 BOUNDS = ("coefficient matrices up to 3x3 with entries in {-3..3} (curated + seeded; concrete because coefficient x bound products must stay linear); "
           "right-hand sides b symbolic |b|<=2^17; variable boxes symbolic inside [-32768,32767] (families: all boolean, one symbolic column, "
           "mixed, all symbolic); a symbolic in-box point x")
@@ -35,6 +35,9 @@ def instantiations(tier, seed):
                 kind = "onesym"
             out.append({"A": A, "boxes": mat.boxes_for(kind, nc, rng), "part": "tighten"})
         out.append({"A": A, "boxes": mat.boxes_for("mixed", nc, rng), "part": "rows"})
+        if k % 2 == 0 or tier == "thorough":
+            # the same queries AFTER tighten_column_bounds() was called on the same object (the accessors must keep describing the declared box)
+            out.append({"A": A, "boxes": mat.boxes_for("onesym", nc, rng), "part": "rows", "after_tighten": True})
     for mu in ("sound_strict", "rowlo_off", "nrc_off"):
         out.append({"kind": "mutant", "mutant": mu, "A": [[1, -2, 3], [2, 0, -1]], "boxes": ["sym", [0, 1], [-2, 3]],
                     "part": "tighten" if mu == "sound_strict" else "rows"})
@@ -85,6 +88,11 @@ def run_inst(spec, run):
                 if spec["part"] == "tighten":
                     out["tb"] = P.tighten_column_bounds()
                 else:
+                    if spec.get("after_tighten"):
+                        out["tb1"] = P.tighten_column_bounds()
+                        P.reducable_columns_approx()
+                        out["tb2"] = P.tighten_column_bounds()
+                        out["cb"] = P.column_bounds()
                     out["rb"] = P.row_bounds()
                     out["nrc"] = P.n_row_combinations
             except Exception as e:   # noqa
@@ -152,6 +160,14 @@ def run_inst(spec, run):
                         exp = exp + 1
                     nv.append(S.term(nrc[i]) != exp)
                 run.obligation(ctx, "row-combination-counts", z3.Or(nv), conc)
+                if spec.get("after_tighten"):
+                    run.region("queries-after-tighten")
+                    o = res["out"]
+                    sv = []
+                    for j in range(nc):
+                        sv.append(z3.Or(S.term(o["cb"][0][j]) != los[j].e, S.term(o["cb"][1][j]) != his[j].e))
+                        sv.append(z3.Or(S.term(o["tb1"][0][j]) != S.term(o["tb2"][0][j]), S.term(o["tb1"][1][j]) != S.term(o["tb2"][1][j])))
+                    run.obligation(ctx, "declared-bounds-and-tightening-stable-after-tighten", z3.Or(sv), conc)
                 run.validate(ctx, conc, lambda m: {"rb": [[S.model_int(m, rb[i][0]), S.model_int(m, rb[i][1])] for i in range(nr)],
                                                    "nrc": [S.model_int(m, nrc[i]) for i in range(nr)]})
             run.sample({"A": A, "boxes": spec["boxes"], "part": spec["part"], "path_condition": [str(z3.simplify(c)) for c in ctx.pc][:5]})
